@@ -110,28 +110,39 @@ def _graphs():
 
 
 @contract('C11', 'gmrf_increment_native', level='bounded', native_samples=1, tol=1e-6,
-          configs=[dict(graph=g, mode=m, sparse=s, bias=b, fpv=fpv) for g in ('edgeless4', 'chain4', 'cycle4', 'tree5', 'isolated6', 'directed4')
-                   for m in ('concatenation', 'subtraction') for s in (False, True) for b in (0, 1) for fpv in (1, 2)],
+          configs=[dict(graph=g, mode=m, sparse=s, bias=b, fpv=fpv, backed=bk) for g in ('edgeless4', 'chain4', 'cycle4', 'tree5', 'isolated6', 'directed4')
+                   for m in ('concatenation', 'subtraction') for s in (False, True) for b in (0, 1) for fpv in (1, 2) for bk in ('vector', 'pointcloud')
+                   if not (bk == 'pointcloud' and (fpv != 2 or b == 1))],
           functions=['menpo.model.gmrf:GMRFVectorModel.increment', 'menpo.model.gmrf:GMRFVectorModel.__init__'])
-def gmrf_increment_native(ctx, graph, mode, sparse, bias, fpv=2):
+def gmrf_increment_native(ctx, graph, mode, sparse, bias, fpv=2, backed='vector'):
     """bounded stand-in: feeding the data in several chunkings gives the mean
-    and precision of the batch model."""
-    from menpo.model import GMRFVectorModel
+    and precision of the batch model - for the vector model and for the
+    object-backed GMRFModel (whose increment goes through its own method)."""
+    from menpo.model import GMRFVectorModel, GMRFModel
+    from menpo.shape import PointCloud
     rs = ctx.nprng
     G = _graphs()[graph]
     n = 14
     X = rs.randn(n, G.n_vertices * fpv) + rs.randn(G.n_vertices * fpv)
     X = X + 0.5 * np.roll(X, 1, axis=1)
-    batch = GMRFVectorModel(X.copy(), G, mode=mode, sparse=sparse, dtype=np.float64, bias=bias, incremental=True)
+    if backed == 'vector':
+        wrap = lambda rows: rows.copy()
+        build = lambda rows: GMRFVectorModel(wrap(rows), G, mode=mode, sparse=sparse, dtype=np.float64, bias=bias, incremental=True)
+        mean_of = lambda m: m.mean()
+    else:
+        wrap = lambda rows: [PointCloud(r.reshape(G.n_vertices, fpv).copy()) for r in rows]
+        build = lambda rows: GMRFModel(wrap(rows), G, mode=mode, sparse=sparse, dtype=np.float64, bias=bias, incremental=True)
+        mean_of = lambda m: m.mean().as_vector()
+    batch = build(X)
     Pb = batch.precision.toarray() if sparse else batch.precision
     for parts in ([7, 7], [5, 4, 5], [8, 1, 1, 4], [6, 8]):
-        m = GMRFVectorModel(X[:parts[0]].copy(), G, mode=mode, sparse=sparse, dtype=np.float64, bias=bias, incremental=True)
+        m = build(X[:parts[0]])
         pos = parts[0]
         for p in parts[1:]:
-            m.increment(X[pos:pos + p].copy())
+            m.increment(wrap(X[pos:pos + p]))
             pos += p
         P = m.precision.toarray() if sparse else m.precision
         tag = 'split%s' % parts
         ctx.check_true(tag + '/n_samples', m.n_samples == n)
-        ctx.check_eq(tag + '/mean', m.mean(), batch.mean())
+        ctx.check_eq(tag + '/mean', mean_of(m), mean_of(batch))
         ctx.check_eq(tag + '/precision', P, Pb, tol=1e-5)
